@@ -159,6 +159,58 @@ type btEnv struct {
 	step    int
 	roots   int // number of live root containers in the current storage
 	ops     int
+	climit  uint32         // maxCollisionLimitPerDigest in force (255 unless a scenario lowers it)
+	sigs    map[string]int // violations with a stable signature already recorded, per signature
+}
+
+// finding records a violation with a STABLE signature (see known_findings.txt).  The record is
+// filed under the property whose text is violated (C18, C09) AND under C17, the only check that
+// runs this stream, so that `./check C17` shows it.  At most three occurrences per run are
+// recorded in full (they all have the same cause); every occurrence is counted.
+func (e *btEnv) finding(sig string, props []string, what string) {
+	e.st.Hit("finding:" + sig)
+	if e.sigs == nil {
+		e.sigs = map[string]int{}
+	}
+	if e.sigs[sig] >= 3 {
+		return
+	}
+	e.sigs[sig]++
+	for _, p := range props {
+		e.st.Violations = append(e.st.Violations, hx.Violation{
+			Property: p, Stream: e.st.Stream, Seed: e.cfg.Seed, Program: e.prog, Step: e.step, What: what, Trace: e.w.Path, Line: e.w.Lines, Sig: sig,
+		})
+	}
+}
+
+const btSigRejectedLeak = "batch-build:rejected-build-leaves-slabs"
+
+// rejectedBuildCheck is the oracle for a bulk build that returned an error (call it before the
+// effects are emitted): C09 "nothing else remains" (filed under C09, which runs this stream too).
+// The slabs the rejected request stored are still in the write set, no container refers to them
+// and the caller received nothing it could dispose of.  (C18's "leaves ... the pending write set
+// exactly as it was" is arguable only: a malformed element stream is not among the argument
+// errors C18 lists, and the code classes DuplicateKey / Hash errors as Fatal, not User.)
+func (e *btEnv) rejectedBuildCheck(what string, err error) {
+	left := hx.StoredIDs(e.rec.Effs)
+	_, herr := atree.CheckStorageHealth(e.ps, e.roots)
+	if len(left) == 0 {
+		e.st.Hit("rejected-build:nothing-left")
+		if herr != nil {
+			e.violation(fmt.Sprintf("%s rejected with %s: CheckStorageHealth(expected %d roots): %v", what, btErrKind(err), e.roots, herr))
+		}
+		return
+	}
+	deltas := atree.VerifDeltas(e.ps)
+	inWS := 0
+	for _, id := range left {
+		if s, ok := deltas[id]; ok && s != nil {
+			inWS++
+		}
+	}
+	e.finding(btSigRejectedLeak, []string{"C09"}, fmt.Sprintf(
+		"%s rejected with %s left %d slab(s) it had stored (first %s; %d of them in the pending write set), referenced by no container and not handed back; CheckStorageHealth(expected %d roots): %v",
+		what, btErrKind(err), len(left), hx.IDStr(left[0]), inWS, e.roots, herr))
 }
 
 func (e *btEnv) violation(what string) {
@@ -189,7 +241,7 @@ func (e *btEnv) fresh() {
 	e.ledger = hx.NewLedger()
 	em, _ := cbor.EncOptions{}.EncMode()
 	dm, _ := cbor.DecOptions{}.DecMode()
-	e.ps = atree.NewPersistentSlabStorage(e.ledger, em, dm, btDecodeStorable, hx.DecodeTypeInfo)
+	e.ps = atree.NewPersistentSlabStorage(e.ledger, em, dm, btDecodeStorable, btDecodeTypeInfo)
 	e.rec = hx.NewRecStorage(e.ps)
 	e.nextH = 0
 	e.keyPay = 0
@@ -312,7 +364,85 @@ func (e *btEnv) health(when string) {
 	}
 }
 
-var btTIC = func(a, b atree.TypeInfo) bool { return a == b }
+// btTI is a TypeInfo WITH IDENTITY: a pointer to a mutable object.  Copy() returns a fresh
+// object, equality is by content (btTIC).  A copy/bulk path that keeps the caller's or the
+// source's object instead of calling Copy() is visible as a shared pointer (audit a1, mutant MTI;
+// hx.TI is a uint64, for which aliasing cannot be observed).  Encoded like hx.TI.
+type btTI struct{ N uint64 }
+
+var _ atree.TypeInfo = (*btTI)(nil)
+
+func (t *btTI) Encode(e *cbor.StreamEncoder) error { return e.EncodeUint64(t.N) }
+func (t *btTI) IsComposite() bool                  { return false }
+func (t *btTI) Copy() atree.TypeInfo               { return &btTI{N: t.N} }
+func (t *btTI) Identifier() string                 { return fmt.Sprintf("ti%d", t.N) }
+func (t *btTI) String() string                     { return fmt.Sprintf("%d", t.N) }
+
+// btDecodeTypeInfo decodes like hx.DecodeTypeInfo and returns the identity-carrying form (the
+// serialization verifier compares extra data with reflect.DeepEqual: one Go type throughout).
+func btDecodeTypeInfo(d *cbor.StreamDecoder) (atree.TypeInfo, error) {
+	t, err := hx.DecodeTypeInfo(d)
+	if err != nil {
+		return nil, err
+	}
+	if n, ok := t.(hx.TI); ok {
+		return &btTI{N: uint64(n)}, nil
+	}
+	return t, nil
+}
+
+// btType returns a fresh type-info object for type number ty.
+func btType(ty hx.TI) atree.TypeInfo { return &btTI{N: uint64(ty)} }
+
+func btTINum(t atree.TypeInfo) (uint64, bool) {
+	switch x := t.(type) {
+	case *btTI:
+		if x == nil {
+			return 0, false
+		}
+		return x.N, true
+	case hx.TI:
+		return uint64(x), true
+	}
+	return 0, false
+}
+
+var btTIC = func(a, b atree.TypeInfo) bool {
+	x, ok1 := btTINum(a)
+	y, ok2 := btTINum(b)
+	if ok1 && ok2 {
+		return x == y
+	}
+	return a == b
+}
+
+// typeAliased: both type infos are objects and they are the SAME object.
+func btTypeAliased(a, b atree.TypeInfo) bool {
+	x, ok1 := a.(*btTI)
+	y, ok2 := b.(*btTI)
+	return ok1 && ok2 && x == y
+}
+
+// typeIndependence: the copy's type info equals the source's by content, is another object, and a
+// change of the source's object does not show through the copy.
+func (e *btEnv) typeIndependence(what string, src, cp atree.TypeInfo) {
+	if !btTIC(src, cp) {
+		e.violation(fmt.Sprintf("%s: the copy has type %v, the source %v", what, cp, src))
+	}
+	if btTypeAliased(src, cp) {
+		e.violation(what + ": the copy shares its TypeInfo object with the source (TypeInfo.Copy() not called)")
+		return
+	}
+	if x, ok := src.(*btTI); ok {
+		e.st.Hit("type-identity:checked")
+		old := x.N
+		x.N = old + 1000
+		if n, _ := btTINum(cp); n != old {
+			e.violation(what + ": changing the source's TypeInfo object changed the type of the copy")
+		}
+		x.N = old
+	}
+}
 
 func btCompareStorable(a, b atree.Storable) bool {
 	switch x := a.(type) {
@@ -494,7 +624,7 @@ func (e *btEnv) checkArray(when string, x *btArr) {
 	if err := atree.VerifyArray(x.a, x.addr, x.ty, btTIC, hx.HashInput, true); err != nil {
 		e.violation(fmt.Sprintf("%s: VerifyArray: %v", when, err))
 	}
-	if err := atree.VerifyArraySerialization(x.a, hx.DecMode(), hx.EncMode(), btDecodeStorable, hx.DecodeTypeInfo, btCompareStorable); err != nil {
+	if err := atree.VerifyArraySerialization(x.a, hx.DecMode(), hx.EncMode(), btDecodeStorable, btDecodeTypeInfo, btCompareStorable); err != nil {
 		e.violation(fmt.Sprintf("%s: VerifyArraySerialization: %v", when, err))
 	}
 }
@@ -506,7 +636,7 @@ func (e *btEnv) arrayBatch(vals []hx.TV, addrN uint64, ty hx.TI) *btArr {
 	addr := hx.MkAddr(addrN)
 	e.w.L("OP abatch h=%d addr=%d ty=%d n=%d vs=%s", h, addrN, uint64(ty), len(vals), btVals(vals))
 	i := 0
-	a, err := atree.NewArrayFromBatchData(e.rec, addr, ty, func() (atree.Value, error) {
+	a, err := atree.NewArrayFromBatchData(e.rec, addr, btType(ty), func() (atree.Value, error) {
 		if i == len(vals) {
 			return nil, nil
 		}
@@ -518,6 +648,7 @@ func (e *btEnv) arrayBatch(vals []hx.TV, addrN uint64, ty hx.TI) *btArr {
 	e.st.Hit("op:abatch")
 	if err != nil {
 		e.w.L("OBS err:%s", btErrKind(err))
+		e.rejectedBuildCheck(fmt.Sprintf("NewArrayFromBatchData(%d elements)", len(vals)), err)
 		e.emitEffects(false)
 		e.violation(fmt.Sprintf("NewArrayFromBatchData(%d elements) failed: %v", len(vals), err))
 		return nil
@@ -638,7 +769,7 @@ func (e *btEnv) arrayIndependence(what string, src, dst *btArr, srcTraced bool) 
 // arraySourceByAppend builds an untraced source array with Append.
 func (e *btEnv) arraySourceByAppend(vals []hx.TV, addrN uint64, ty hx.TI) *btArr {
 	addr := hx.MkAddr(addrN)
-	a, err := atree.NewArray(e.rec, addr, ty)
+	a, err := atree.NewArray(e.rec, addr, btType(ty))
 	if err != nil {
 		e.st.HarnessErr = "NewArray: " + err.Error()
 		return nil
@@ -798,6 +929,7 @@ func (e *btEnv) arrayCopy(what string, src *btArr, toAddr uint64) *btArr {
 		e.violation(what + ": copy changed the source")
 	}
 	e.checkArray(what+": copy", y)
+	e.typeIndependence(what, src.a.Type(), cp.Type())
 	e.health(what + ": after copy")
 	return y
 }
@@ -859,7 +991,7 @@ func (e *btEnv) scenarioArrayCopyInlined(withRef bool) {
 	addrN := uint64(1 + e.rng.Intn(3))
 	addr := hx.MkAddr(addrN)
 	ty := hx.TI(uint64(e.rng.Intn(100)))
-	parent, err := atree.NewArray(e.rec, addr, hx.TI(7))
+	parent, err := atree.NewArray(e.rec, addr, btType(hx.TI(7)))
 	if err != nil {
 		e.st.HarnessErr = "NewArray: " + err.Error()
 		return
@@ -966,18 +1098,18 @@ func (e *btEnv) scenarioArrayCopyInlined(withRef bool) {
 func (e *btEnv) scenarioArrayCopyNested() {
 	e.fresh()
 	addr := hx.MkAddr(1)
-	src, err := atree.NewArray(e.rec, addr, hx.TI(1))
+	src, err := atree.NewArray(e.rec, addr, btType(hx.TI(1)))
 	if err != nil {
 		return
 	}
-	child, err := atree.NewArray(e.rec, addr, hx.TI(2))
+	child, err := atree.NewArray(e.rec, addr, btType(hx.TI(2)))
 	if err != nil {
 		return
 	}
 	_ = child.Append(e.tv(5))
 	_ = src.Append(e.tv(4))
 	if e.rng.Intn(2) == 0 {
-		m, err := atree.NewMap(e.rec, addr, atree.NewDefaultDigesterBuilder(), hx.TI(3))
+		m, err := atree.NewMap(e.rec, addr, atree.NewDefaultDigesterBuilder(), btType(hx.TI(3)))
 		if err != nil {
 			return
 		}
@@ -1056,7 +1188,7 @@ func (e *btEnv) scenarioBytes() {
 	e.skip()
 	h := e.handle()
 	e.w.L("OP b2a h=%d addr=%d ty=%d est=%d sz0=3 sz1=4 n=%d bs=%s", h, addrN, uint64(ty), est, len(data), bs)
-	a, err := atree.ByteSliceToByteArray[BV](e.rec, addr, ty, data, est)
+	a, err := atree.ByteSliceToByteArray[BV](e.rec, addr, btType(ty), data, est)
 	e.ops++
 	e.st.Hit("op:b2a")
 	if err != nil {
@@ -1065,7 +1197,7 @@ func (e *btEnv) scenarioBytes() {
 		e.violation(fmt.Sprintf("ByteSliceToByteArray(%d bytes) failed: %v", len(data), err))
 		return
 	}
-	e.w.L("OBS ok")
+	e.w.L("OBS ok%s", e.callCounts())
 	e.emitEffects(true)
 	e.w.L("FULL h=%d %s", h, e.dumpTree(atree.VerifArrayRoot(a)))
 	e.roots++
@@ -1077,7 +1209,7 @@ func (e *btEnv) scenarioBytes() {
 	if err := atree.VerifyArray(a, addr, ty, btTIC, hx.HashInput, true); err != nil {
 		e.violation("ByteSliceToByteArray: VerifyArray: " + err.Error())
 	}
-	if err := atree.VerifyArraySerialization(a, hx.DecMode(), hx.EncMode(), btDecodeStorable, hx.DecodeTypeInfo, btCompareStorable); err != nil {
+	if err := atree.VerifyArraySerialization(a, hx.DecMode(), hx.EncMode(), btDecodeStorable, btDecodeTypeInfo, btCompareStorable); err != nil {
 		e.violation("ByteSliceToByteArray: VerifyArraySerialization: " + err.Error())
 	}
 	e.health("ByteSliceToByteArray")
@@ -1298,7 +1430,7 @@ func (e *btEnv) checkMap(when string, x *btMap, ordered bool) {
 	if err := atree.VerifyMap(x.m, x.addr, x.ty, btTIC, hx.HashInput, true); err != nil {
 		e.violation(fmt.Sprintf("%s: VerifyMap: %v", when, err))
 	}
-	if err := atree.VerifyMapSerialization(x.m, hx.DecMode(), hx.EncMode(), btDecodeStorable, hx.DecodeTypeInfo, btCompareStorable); err != nil {
+	if err := atree.VerifyMapSerialization(x.m, hx.DecMode(), hx.EncMode(), btDecodeStorable, btDecodeTypeInfo, btCompareStorable); err != nil {
 		e.violation(fmt.Sprintf("%s: VerifyMapSerialization: %v", when, err))
 	}
 }
@@ -1307,7 +1439,7 @@ func (e *btEnv) checkMap(when string, x *btMap, ordered bool) {
 func (e *btEnv) mapSource(n int, mode int, valProf int, addrN uint64, ty hx.TI) *btMap {
 	b, L := e.mapBuilder(mode)
 	addr := hx.MkAddr(addrN)
-	m, err := atree.NewMap(e.rec, addr, b, ty)
+	m, err := atree.NewMap(e.rec, addr, b, btType(ty))
 	if err != nil {
 		e.st.HarnessErr = "NewMap: " + err.Error()
 		return nil
@@ -1362,9 +1494,9 @@ func (e *btEnv) mapBatch(kvs []btKV, db atree.DigesterBuilder, newBuilder atree.
 	e.skip()
 	h := e.handle()
 	addr := hx.MkAddr(addrN)
-	e.w.L("OP mbatch h=%d addr=%d ty=%d L=%d climit=255 seed=%d n=%d kvs=%s", h, addrN, uint64(ty), L, seed, len(kvs), e.pairsStr(db, kvs))
+	e.w.L("OP mbatch h=%d addr=%d ty=%d L=%d climit=%d seed=%d n=%d kvs=%s", h, addrN, uint64(ty), L, e.climit, seed, len(kvs), e.pairsStr(db, kvs))
 	i := 0
-	m, err := atree.NewMapFromBatchData(e.rec, addr, newBuilder, ty, hx.CompareKey, hx.HashInput, seed,
+	m, err := atree.NewMapFromBatchData(e.rec, addr, newBuilder, btType(ty), hx.CompareKey, hx.HashInput, seed,
 		func() (atree.Value, atree.Value, error) {
 			if i == len(kvs) {
 				return nil, nil, nil
@@ -1377,11 +1509,12 @@ func (e *btEnv) mapBatch(kvs []btKV, db atree.DigesterBuilder, newBuilder atree.
 	e.st.Hit("op:mbatch")
 	if err != nil {
 		e.w.L("OBS err:%s", btErrKind(err))
+		e.rejectedBuildCheck(fmt.Sprintf("NewMapFromBatchData(%d pairs)", len(kvs)), err)
 		e.emitEffects(false)
 		e.st.Hit("mbatch:" + btErrKind(err))
 		if wantErr == "" {
 			e.violation(fmt.Sprintf("NewMapFromBatchData(%d pairs in source order) failed: %v", len(kvs), err))
-		} else if btErrKind(err) != wantErr {
+		} else if wantErr != "?" && btErrKind(err) != wantErr {
 			e.violation(fmt.Sprintf("NewMapFromBatchData: bad stream reported %s, want %s", btErrKind(err), wantErr))
 		}
 		return nil
@@ -1391,7 +1524,7 @@ func (e *btEnv) mapBatch(kvs []btKV, db atree.DigesterBuilder, newBuilder atree.
 	e.w.L("MFULL h=%d %s", h, e.dumpTree(atree.VerifMapRoot(m)))
 	e.roots++
 	x := &btMap{h: h, m: m, b: newBuilder, addr: addr, ty: ty, L: L, kvs: append([]btKV(nil), kvs...)}
-	if wantErr != "" {
+	if wantErr != "" && wantErr != "?" {
 		e.violation(fmt.Sprintf("NewMapFromBatchData accepted a stream that must be rejected with %s", wantErr))
 		return x
 	}
@@ -1703,6 +1836,7 @@ func (e *btEnv) mapCopy(what string, src *btMap, toAddr uint64) *btMap {
 		e.violation(what + ": copy changed the source")
 	}
 	e.checkMap(what+": copy", y, true)
+	e.typeIndependence(what, src.m.Type(), cp.Type())
 	e.health(what + ": after copy")
 	return y
 }
@@ -1775,7 +1909,7 @@ func (e *btEnv) scenarioMapCopyInlined(withRef bool) {
 	addrN := uint64(1 + e.rng.Intn(3))
 	addr := hx.MkAddr(addrN)
 	ty := hx.TI(uint64(e.rng.Intn(100)))
-	parent, err := atree.NewArray(e.rec, addr, hx.TI(7))
+	parent, err := atree.NewArray(e.rec, addr, btType(hx.TI(7)))
 	if err != nil {
 		e.st.HarnessErr = "NewArray: " + err.Error()
 		return
@@ -1871,11 +2005,11 @@ func (e *btEnv) scenarioMapCopyNested() {
 	e.fresh()
 	addr := hx.MkAddr(1)
 	b := atree.NewDefaultDigesterBuilder()
-	src, err := atree.NewMap(e.rec, addr, b, hx.TI(1))
+	src, err := atree.NewMap(e.rec, addr, b, btType(hx.TI(1)))
 	if err != nil {
 		return
 	}
-	child, err := atree.NewArray(e.rec, addr, hx.TI(2))
+	child, err := atree.NewArray(e.rec, addr, btType(hx.TI(2)))
 	if err != nil {
 		return
 	}
@@ -1908,7 +2042,7 @@ func batchStream(cfg *Config) *hx.Stats {
 	if nProg < 1 {
 		nProg = 1
 	}
-	e := &btEnv{w: w, st: st, cfg: cfg, rng: rng}
+	e := &btEnv{w: w, st: st, cfg: cfg, rng: rng, climit: 255}
 	atree.VerifSetMaxCollisionLimitPerDigest(255)
 	seen := map[string]bool{}
 	for p := 0; p < nProg && len(st.Violations) <= 40 && st.HarnessErr == ""; p++ {
@@ -2018,6 +2152,14 @@ func batchStream(cfg *Config) *hx.Stats {
 			e.scenarioBytes()
 		}
 		e.scenarioBytesReject()
+		// --- directed (audit a1, F4 / F9): see batch_fx9f.go
+		e.scenarioBytesNonByte(false, rng.Intn(3))
+		e.scenarioBytesNonByte(true, 2)
+		e.scenarioBytesNonByte(true, rng.Intn(2))
+		e.scenarioBytesBoundary()
+		e.scenarioArrayProviderFails(0, false)
+		e.scenarioArrayProviderFails(1+rng.Intn(5), true)
+		e.scenarioArrayProviderFails(20+rng.Intn(200), true)
 		// --- map builds
 		nMaps := 30
 		if big {
@@ -2048,6 +2190,17 @@ func batchStream(cfg *Config) *hx.Stats {
 		}
 		for i := 0; i < 12; i++ {
 			e.scenarioMapReject(i%6, rng.Intn(5))
+		}
+		// --- directed (audit a1, F4 / F9): see batch_fx9f.go
+		e.scenarioMapLimit(uint32(p % 4))
+		e.scenarioMapLimit(uint32(rng.Intn(4)))
+		e.scenarioMapRejectLarge(1, 0)
+		e.scenarioMapRejectLarge(2+rng.Intn(40), rng.Intn(2))
+		if T == 1024 {
+			e.scenarioMapRejectLarge(400, 0) // the audit's: 400 large values, then the last key again
+		}
+		for i := 0; i < 3; i++ {
+			e.scenarioMapBigKey(i)
 		}
 		for i := 0; i < 16; i++ {
 			e.scenarioMapCopy(rng.Intn(7))
